@@ -3,7 +3,7 @@ import sys, time
 sys.path.insert(0, "/verif")
 from pyvc.loader import Repo
 from pyvc.spec import Registry
-from pyvc.verify import Verifier, discharge, to_smt2, to_smt2_ground, to_smt2_sliced, discharge_smt2
+from pyvc.verify import Verifier, discharge, to_smt2, to_smt2_ground, to_smt2_sliced, discharge_smt2, discharge_singles
 from pyvc.symex import Unsupported
 import specs
 
@@ -33,7 +33,8 @@ for tgt, c in R.contracts.items():
                 r = discharge_smt2(o.name, o.kind, o.line, sl, timeout_ms=5000, use_cvc5=False, retries=0)
                 r.backend = "z3 (sliced)"
             if r.status != "proved":
-                r = discharge(o, bg, timeout_ms=10000)
+                r1 = discharge_singles(o.name, o.kind, o.line, to_smt2(o, []))
+                r = r1 if r1 is not None else discharge(o, bg, timeout_ms=10000)
         else:
             r.backend = "z3 (qf)"
         flag = {"proved": "ok ", "refuted": "FAIL", "unknown": "??? "}[r.status]
